@@ -56,6 +56,17 @@ StepEv(e) ==
   IF Cardinality({ o.st.loc : o \in oks }) > 1
   THEN \* guards not exclusive in this state: outside the property, drop the session
        /\ PrintT(<<"DROPPED", l>>) /\ skip' = TRUE /\ UNCHANGED <<P, big, st>>
+  ELSE IF Has(e.res, "ok") /\ Has(e.res.ok, "relift") THEN
+       \* the driver lifted a new function at an indirect-branch target that is no instruction of P:
+       \* it must sit on an instruction whose address is the evaluated target, with the state the
+       \* branch left (the rest of the session runs code the trace does not describe)
+       LET r == e.res.ok
+           m == { o \in lifts : /\ r.at.k = "some" /\ r.at.v = o.addr
+                                 /\ o.sc = ScFn(r.sc)
+                                 /\ IF Has(r, "mem") THEN MemAgrees(o.mem, r.mem) ELSE o.mem = st.mem }
+       IN IF m # {} THEN skip' = TRUE /\ UNCHANGED <<P, big, st>>
+          ELSE /\ Reject(l, "relift", [allowed |-> Brief(outs)])
+               /\ skip' = TRUE /\ UNCHANGED <<P, big, st>>
   ELSE IF Has(e.res, "ok") THEN
        LET r == e.res.ok
            m == { o \in oks : /\ o.st.loc = LocOf(P, r.loc)
@@ -63,7 +74,6 @@ StepEv(e) ==
                                /\ IF Has(r, "mem") THEN MemAgrees(o.st.mem, r.mem)
                                   ELSE o.st.mem = st.mem }
        IN IF m # {} THEN st' = (CHOOSE o \in m : TRUE).st /\ UNCHANGED <<P, big, skip>>
-          ELSE IF lifts # {} THEN skip' = TRUE /\ UNCHANGED <<P, big, st>>      \* re-lifted at an unknown address
           ELSE /\ Reject(l, "step", [allowed |-> Brief(outs)])
                /\ skip' = TRUE /\ UNCHANGED <<P, big, st>>
   ELSE IF Has(e.res, "err") /\ (ErrOut(e.res.err) \in outs \/ lifts # {})
